@@ -108,6 +108,29 @@ PlusOn(cls, d, o) == IF ~TreePlus(cls) THEN Plus(d, o)
                              IF k \notin KeySet(o) THEN At(d, k)
                              ELSE IF k \notin KeySet(d) THEN At(o, k) ELSE DeepV(At(d, k), At(o, k))]
 
+\* 2c. d - path: the key is a PATH tuple <<k1, ..., kn>>, n >= 2, into values that are mappings ("delete a branch"):
+\*     the law is the tree with that path removed - a path that is not there is a no-op -, a new mapping of the same
+\*     class, and d unchanged AT EVERY DEPTH: the mappings along the path belong to d.  d -= path is the same law for the
+\*     name it is applied to (the classes define no __isub__): the object d stays what it was.
+\*     PathThroughLeaf (outside the property): a prefix of the path that ends in a value which is not a mapping
+RECURSIVE RemF(_, _)
+RemF(f, p) == IF Len(p) = 1 THEN [k \in (DOMAIN f) \ {p[1]} |-> f[k]]
+              ELSE IF DOMAIN f = {} THEN f
+              ELSE IF p[1] \in DOMAIN f THEN (IF IsM(f[p[1]]) THEN [f EXCEPT ![p[1]] = <<"m", RemF(f[p[1]][2], Tail(p))>>] ELSE f)
+              ELSE f
+RECURSIVE PathOkF(_, _)
+PathOkF(f, p) == IF Len(p) = 1 \/ DOMAIN f = {} THEN TRUE
+                 ELSE IF p[1] \in DOMAIN f THEN IsM(f[p[1]]) /\ PathOkF(f[p[1]][2], Tail(p)) ELSE TRUE
+PathOk(d, p)  == Len(p) >= 2 /\ PathOkF(AsFun(d), p)
+RECURSIVE PathThere(_, _)
+PathThere(f, p) == IF DOMAIN f = {} THEN FALSE
+                   ELSE IF p[1] \in DOMAIN f THEN Len(p) = 1 \/ (IsM(f[p[1]]) /\ PathThere(f[p[1]][2], Tail(p))) ELSE FALSE
+MinusPath(d, p) == LET g == RemF(AsFun(d), p) IN [i \in 1..Len(d) |-> <<d[i][1], g[d[i][1]]>>]       \* (n >= 2: no top-level key goes)
+\* mechanism: which of d's own nested mappings does the result share?  "alongpath": none of those along the path (they are
+\* copied - today's code); "rootonly": all of them (a shallow copy of the root only, the deletion happens in the shared
+\* branch).  What d holds afterwards:
+PathMechAfter(policy, d, p) == IF policy = "rootonly" /\ PathThere(AsFun(d), p) THEN MinusPath(d, p) ELSE d
+
 \* ------------------------------------------------------------------------------------------
 \* 3. Dict.__call__: evaluation of definitions in dependency order
 \*    par  : derived key -> sequence of the names of its NAMED parameters, as declared
